@@ -1,12 +1,28 @@
 /* Contracts for ikos::linear_constraint<z_number,VN> and ikos::linear_expression<z_number,VN>
  * (include/crab/types/linear_constraints.hpp) -- property C20.
  *
- * PART 1 (constraint layer, unbounded): the real linear_constraint code is proved against the meaning
- * "E(map) + _cst {==,!=,<=,<} 0" with E an arbitrary (uninterpreted) function of the map, i.e. for every
+ * PART 1 (constraint layer, unbounded, ABSTRACT reading of spec.h): the real linear_constraint code is proved against
+ * the meaning "E(map) + _cst {==,!=,<=,<} 0" with E an arbitrary (uninterpreted) function of the map, i.e. for every
  * valuation and every expression; the few linear_expression members it calls that touch the term container are
  * replaced by their contracts (PART 0), everything else of linear_expression (copy, e + n, e - n, constant())
- * runs in line. */
+ * runs in line.
+ * PART 2 (expression layer): 2a members that only pass the map on (ABSTRACT reading, unbounded); 2b members that work
+ * on the terms (CONCRETE reading, BOUNDED: NT terms per operand), run on the reference sorted-array model of the Boost
+ * container (lemodel.c).  The contracts of PART 0 that PART 1 assumes are the ones PART 2b proves. */
 #include "spec.h"
+/* The contracts of the expression operations have two groups of postconditions: SP = structure (well-formed result,
+ * constant, coefficient-wise characterisation) and EP = evaluation under the valuation (lemma-conditioned).  A check may
+ * select one group (defs=NO_EVAL / defs=ONLY_EVAL) so that the expensive evaluation clauses run as separate checks. */
+#if defined(ONLY_EVAL)
+#define SP(e) 1
+#define EP(e) (e)
+#elif defined(NO_EVAL)
+#define SP(e) (e)
+#define EP(e) 1
+#else
+#define SP(e) (e)
+#define EP(e) (e)
+#endif
 #define LCK(x) _ZNK4ikos17linear_constraintINS_8z_numberE2VNE##x
 #define LCN(x) _ZN4ikos17linear_constraintINS_8z_numberE2VNE##x
 #define LEK(x) _ZNK4ikos17linear_expressionINS_8z_numberE2VNE##x
@@ -14,10 +30,14 @@
 #define SPN(x) _ZNSt10shared_ptrIN5boost9container8flat_mapIN4crab8variableIN4ikos8z_numberE2VNEES6_St4lessIS8_EvEEE##x
 #define MAKE_SHARED _ZSt11make_sharedIN5boost9container8flat_mapIN4crab8variableIN4ikos8z_numberE2VNEES6_St4lessIS8_EvEEJEESt10shared_ptrINSt9enable_ifIXntsr8is_arrayIT_EE5valueESE_E4typeEEDpOT0_
 
+#define EMAP(e) MAPP(*(e))
 #ifdef LINCST_CONCRETE
 uint64_t g_v;     /* ghost variable index at which coefficient-wise facts are instantiated: arbitrary, never assigned */
+#define GET(e, x) fm_get(MAPP(*(e)), x)
 #define COEFWISE_NEG(r, a) (FM_SIZE(MAPP(*(r))) == FM_SIZE(MAPP(*(a))) && fm_get(MAPP(*(r)), g_v) == -fm_get(MAPP(*(a)), g_v))
 #else
+#define g_v 0
+#define GET(e, x) ((i128)0)     /* coefficient-wise clauses say nothing in the abstract reading */
 #define COEFWISE_NEG(r, a) 1
 #endif
 /* ===================== PART 0: callee contracts on the term container ===================== */
@@ -34,21 +54,30 @@ __CPROVER_ensures(1);
 void MAKE_SHARED(SPT *ret)
 __CPROVER_requires(FRESH(sp_make, ret, sizeof(SPT)))
 __CPROVER_assigns(*ret)
-__CPROVER_ensures(__CPROVER_is_fresh(ret->f0.f0, sizeof(FM)) && FM_SIZE(ret->f0.f0) == 0 && FM_CAP(ret->f0.f0) == 0 && FM_START(ret->f0.f0) == 0)
+__CPROVER_ensures(__CPROVER_is_fresh(ret->f0.f0, sizeof(FM)) && FM_SIZE(ret->f0.f0) == 0)
 __CPROVER_ensures(MAP_CONST(ret->f0.f0) && MAP_E(ret->f0.f0) == 0);
 
 /* is_constant(): the expression has no term (then its variable part is 0 under every valuation: built into MAP_E) */
 unsigned char LEK(11is_constantEv)(LE *self)
-__CPROVER_requires(FRESH(le_is_constant, self, sizeof(LE)) && le_ok(self))
+__CPROVER_requires(FRESH(le_is_constant, self, sizeof(LE)) && le_ok_any(self))
 __CPROVER_assigns()
 __CPROVER_ensures(__CPROVER_return_value == (LE_CONST(self) ? 1 : 0));
 /* unary minus: negates the variable part and the constant */
 void LEK(ngEv)(LE *ret, LE *self)
 __CPROVER_requires(FRESH(le_neg, ret, sizeof(LE)) && FRESH(le_neg, self, sizeof(LE)) && le_okz(self, 2 * ZB))
 __CPROVER_assigns(*ret)
-__CPROVER_ensures(le_okz(ret, 2 * ZB) && LE_CST(ret) == -LE_CST(self) && LE_CONST(ret) == LE_CONST(self))
-__CPROVER_ensures(!NEG_LEMMAS(self) || LE_E(ret) == -LE_E(self))
-__CPROVER_ensures(TOP(le_neg, COEFWISE_NEG(ret, self)));
+__CPROVER_ensures(SP(le_okz(ret, 2 * ZB) && LE_CST(ret) == -LE_CST(self) && LE_CONST(ret) == LE_CONST(self)))
+__CPROVER_ensures(EP(!NEG_LEMMAS(self) || LE_E(ret) == -LE_E(self)))
+__CPROVER_ensures(SP(TOP(le_neg, COEFWISE_NEG(ret, self))));
+
+/* rename(rho) for an arbitrary renaming map rho: see PART 2 (check le_rename); in the abstract reading: the constant is
+ * kept and the variable part of the result has the value of the variable part of the operand under val o rho */
+void LEK(6renameI2RMEES3_RKT_)(LE *ret, LE *self, struct S_struct_RM *map)
+__CPROVER_requires(FRESH(le_rename, ret, sizeof(LE)) && FRESH(le_rename, self, sizeof(LE)) && FRESH(le_rename, map, sizeof(struct S_struct_RM)) && le_ok(self))
+__CPROVER_assigns(*ret)
+__CPROVER_ensures(SP(le_oknz(ret, NT, 2 * ZB) && LE_CST(ret) == LE_CST(self)))
+__CPROVER_ensures(SP(GET(ret, g_v) == fm_get_renamed(EMAP(self), g_v)))
+__CPROVER_ensures(EP(!fm_rename_lemmas(EMAP(self)) || LE_E(ret) == fm_eval_renamed(EMAP(self))));
 
 /* harness input: an arbitrary constraint; the values the uninterpreted symbols take on its map are recorded as
  * witnesses (g_E: variable part under the valuation, g_const: "no term") for the native replay */
@@ -170,25 +199,253 @@ void h_negate(void){ INLC(a); LC r; LCK(6negateEv)(&r, &a);
   SATGUARD(a.f0 == K_EQ && a_const); SATGUARD(a.f0 == K_EQ && !a_const); SATGUARD(a.f0 == K_NE && a_const); SATGUARD(a.f0 == K_NE && !a_const);
   SATGUARD(a.f0 == K_LE && a_const); SATGUARD(a.f0 == K_LE && !a_const); SATGUARD(a.f0 == K_LT && a_const); SATGUARD(a.f0 == K_LT && !a_const); REACH; }
 
-/* ===================== PART 2: linear_expression on the REAL flat_map (BOUNDED) ===================== */
-#ifdef LINCST_CONCRETE
-/* harness input: an expression together with its own map object and term storage.  The capacity is either
- * exactly the size (an insertion must reallocate) or CAPT (an insertion shifts in place). */
-#define CAPT 4
-struct lein { LE e; FM m; PR t[CAPT]; unsigned char room; };
-#define INLE(A) IN(struct lein, A); A.e.f0.f0.f0 = &A.m; FM_START(&A.m) = A.t; FM_CAP(&A.m) = A.room ? CAPT : FM_SIZE(&A.m)
-#else
-#define INLE(A) IN(LE, A)
+/* ---- rename(rho) of a constraint: the same kind, and it holds under a valuation val exactly when the original holds
+ * under val o rho (the expression's rename is replaced by its contract: proved, BOUNDED, in PART 2) */
+//@check id=lc_rename fn=_ZNK4ikos17linear_constraintINS_8z_numberE2VNE6renameI2RMEES3_RKT_ props=C20 replace=_ZNK4ikos17linear_expressionINS_8z_numberE2VNE6renameI2RMEES3_RKT_,_ZNSt10shared_ptrIN5boost9container8flat_mapIN4crab8variableIN4ikos8z_numberE2VNEES6_St4lessIS8_EvEEEC2ERKSC_,_ZNSt10shared_ptrIN5boost9container8flat_mapIN4crab8variableIN4ikos8z_numberE2VNEES6_St4lessIS8_EvEEED2Ev
+void LCK(6renameI2RMEES3_RKT_)(LC *ret, LC *self, struct S_struct_RM *map)
+__CPROVER_requires(FRESH(lc_rename, ret, sizeof(LC)) && FRESH(lc_rename, self, sizeof(LC)) && FRESH(lc_rename, map, sizeof(struct S_struct_RM)) && lc_ok(self))
+__CPROVER_assigns(*ret)
+__CPROVER_ensures(lc_okz(ret, 2 * ZB) && ret->f0 == self->f0)
+__CPROVER_ensures(LC_HOLDS(ret) == k_holds(self->f0, fm_eval_renamed(EMAP(&self->f1)) + LE_CST(&self->f1)));
+#ifndef LINCST_CONCRETE
+void h_lc_rename(void){ INLC(a); IN(struct S_struct_RM, rm); LC r; LCK(6renameI2RMEES3_RKT_)(&r, &a, &rm); REACH; }
 #endif
-#define R_PLUMB _ZSt11make_sharedIN5boost9container8flat_mapIN4crab8variableIN4ikos8z_numberE2VNEES6_St4lessIS8_EvEEJEESt10shared_ptrINSt9enable_ifIXntsr8is_arrayIT_EE5valueESE_E4typeEEDpOT0_,_ZNSt10shared_ptrIN5boost9container8flat_mapIN4crab8variableIN4ikos8z_numberE2VNEES6_St4lessIS8_EvEEEC2ERKSC_,_ZNSt10shared_ptrIN5boost9container8flat_mapIN4crab8variableIN4ikos8z_numberE2VNEES6_St4lessIS8_EvEEED2Ev
 
-/* is_constant(): the contract the constraint layer uses, now against the real container: no term */
-//@check id=le_is_constant fn=_ZNK4ikos17linear_expressionINS_8z_numberE2VNE11is_constantEv props=C20 defs=LINCST_CONCRETE
-#ifdef CHECK_le_is_constant
-void h_le_is_constant(void){ INLE(A); LEK(11is_constantEv)(&A.e); REACH; }
+/* ---- SUPPORTING LEMMA for linear_constraint_system::normalize ("replace pairs e <= 0 and -e <= 0 with e == 0";
+ * for a single negative term it emits -e == 0).  normalize itself (std::vector / unordered_set / unordered_map code)
+ * is NOT verified; what is checked here, on the real constructor and the contract of operator-(), is the semantic
+ * step it relies on:  (e <= 0 and -e <= 0)  <=>  e == 0  <=>  -e == 0  under every valuation. */
+//@check id=norm_pair fn=_ZNK4ikos17linear_constraintINS_8z_numberE2VNE11is_equalityEv tag=is_equality props=C20 replace=_ZNK4ikos17linear_expressionINS_8z_numberE2VNEngEv,_ZNSt10shared_ptrIN5boost9container8flat_mapIN4crab8variableIN4ikos8z_numberE2VNEES6_St4lessIS8_EvEEEC2ERKSC_
+#ifndef LINCST_CONCRETE
+void h_norm_pair(void){ IN(LE, e); RECORD(i128, e_E, LE_E(&e)); RECORD(unsigned char, e_const, LE_CONST(&e) ? 1 : 0);
+  LE ne; LC c1, c2, q1, q2;
+  if (!le_ok(&e)) return;
+  LEK(ngEv)(&ne, &e);
+  LCN(C2ERKNS_17linear_expressionIS1_S2_EENS3_6kind_tE)(&c1, &e, K_LE); LCN(C2ERKNS_17linear_expressionIS1_S2_EENS3_6kind_tE)(&c2, &ne, K_LE);
+  LCN(C2ERKNS_17linear_expressionIS1_S2_EENS3_6kind_tE)(&q1, &e, K_EQ); LCN(C2ERKNS_17linear_expressionIS1_S2_EENS3_6kind_tE)(&q2, &ne, K_EQ);
+  __CPROVER_assert((LC_HOLDS(&c1) && LC_HOLDS(&c2)) == LC_HOLDS(&q1), "e <= 0 and -e <= 0 iff e == 0");
+  __CPROVER_assert(LC_HOLDS(&q1) == LC_HOLDS(&q2), "e == 0 iff -e == 0");
+  __CPROVER_assert(LCK(11is_equalityEv)(&q1) == 1, "the replacement is an equality");   /* (the one call of the function this check enforces) */
+  SATGUARD(LC_HOLDS(&q1) && !LE_CONST(&e)); SATGUARD(!LC_HOLDS(&q1) && LC_HOLDS(&c1)); REACH; }
 #endif
-/* unary minus (the contract the constraint layer uses): BOUNDED: at most NT = 2 terms */
-//@check id=le_neg fn=_ZNK4ikos17linear_expressionINS_8z_numberE2VNEngEv props=C20 defs=LINCST_CONCRETE unwind=4 bounded="<=2 terms"
-#ifdef CHECK_le_neg
-void h_le_neg(void){ INLE(A); GHOSTG(uint64_t, g_v); LE r; LEK(ngEv)(&r, &A.e); SATGUARD(NEG_LEMMAS(&A.e) && FM_SIZE(&A.m) == 2); REACH; }
+
+/* ===================== PART 2: linear_expression ===================== */
+/* ---- 2a. members that do not look at the terms: ABSTRACT reading, unbounded (the map is only passed on) */
+#define SP_COPY_DTOR _ZNSt10shared_ptrIN5boost9container8flat_mapIN4crab8variableIN4ikos8z_numberE2VNEES6_St4lessIS8_EvEEEC2ERKSC_,_ZNSt10shared_ptrIN5boost9container8flat_mapIN4crab8variableIN4ikos8z_numberE2VNEES6_St4lessIS8_EvEEED2Ev
+/* constant() */
+//@check id=le_constant fn=_ZNK4ikos17linear_expressionINS_8z_numberE2VNE8constantEv props=C20
+void LEK(8constantEv)(Z *ret, LE *self)
+__CPROVER_requires(FRESH(le_constant, ret, sizeof(Z)) && FRESH(le_constant, self, sizeof(LE)) && le_ok_any(self))
+__CPROVER_assigns(*ret)
+__CPROVER_ensures(ZV(ret) == LE_CST(self));
+#ifndef LINCST_CONCRETE
+void h_le_constant(void){ IN(LE, a); Z r; LEK(8constantEv)(&r, &a); REACH; }
+#endif
+/* e + n, e - n (n a number or a machine integer): the SAME terms (the map is shared), the constant shifted:
+ * value(e +- n) = value(e) +- n under every valuation */
+#define SHIFT_NUM(id, fn, SIGN) \
+void fn(LE *ret, LE *self, Z *n) \
+__CPROVER_requires(FRESH(id, ret, sizeof(LE)) && FRESH(id, self, sizeof(LE)) && FRESH(id, n, sizeof(Z)) && le_ok_any(self) && zin(ZV(n), ZB)) \
+__CPROVER_assigns(*ret) \
+__CPROVER_ensures(MAPP(*ret) == MAPP(*self) && LE_CST(ret) == LE_CST(self) SIGN ZV(n));
+#define SHIFT_LONG(id, fn, SIGN) \
+void fn(LE *ret, LE *self, uint64_t n) \
+__CPROVER_requires(FRESH(id, ret, sizeof(LE)) && FRESH(id, self, sizeof(LE)) && le_ok_any(self) && zin((i128)(int64_t)n, ZB)) \
+__CPROVER_assigns(*ret) \
+__CPROVER_ensures(MAPP(*ret) == MAPP(*self) && LE_CST(ret) == LE_CST(self) SIGN (i128)(int64_t)n);
+//@check id=le_add_num fn=_ZNK4ikos17linear_expressionINS_8z_numberE2VNEplES1_ props=C20 replace=_ZNSt10shared_ptrIN5boost9container8flat_mapIN4crab8variableIN4ikos8z_numberE2VNEES6_St4lessIS8_EvEEEC2ERKSC_,_ZNSt10shared_ptrIN5boost9container8flat_mapIN4crab8variableIN4ikos8z_numberE2VNEES6_St4lessIS8_EvEEED2Ev
+SHIFT_NUM(le_add_num, LEK(plES1_), +)
+//@check id=le_sub_num fn=_ZNK4ikos17linear_expressionINS_8z_numberE2VNEmiES1_ props=C20 replace=_ZNSt10shared_ptrIN5boost9container8flat_mapIN4crab8variableIN4ikos8z_numberE2VNEES6_St4lessIS8_EvEEEC2ERKSC_,_ZNSt10shared_ptrIN5boost9container8flat_mapIN4crab8variableIN4ikos8z_numberE2VNEES6_St4lessIS8_EvEEED2Ev
+SHIFT_NUM(le_sub_num, LEK(miES1_), -)
+//@check id=le_add_long fn=_ZNK4ikos17linear_expressionINS_8z_numberE2VNEplEl props=C20 replace=_ZNSt10shared_ptrIN5boost9container8flat_mapIN4crab8variableIN4ikos8z_numberE2VNEES6_St4lessIS8_EvEEEC2ERKSC_,_ZNSt10shared_ptrIN5boost9container8flat_mapIN4crab8variableIN4ikos8z_numberE2VNEES6_St4lessIS8_EvEEED2Ev
+SHIFT_LONG(le_add_long, LEK(plEl), +)
+//@check id=le_sub_long fn=_ZNK4ikos17linear_expressionINS_8z_numberE2VNEmiEl props=C20 replace=_ZNSt10shared_ptrIN5boost9container8flat_mapIN4crab8variableIN4ikos8z_numberE2VNEES6_St4lessIS8_EvEEEC2ERKSC_,_ZNSt10shared_ptrIN5boost9container8flat_mapIN4crab8variableIN4ikos8z_numberE2VNEES6_St4lessIS8_EvEEED2Ev
+SHIFT_LONG(le_sub_long, LEK(miEl), -)
+#ifndef LINCST_CONCRETE
+void h_le_add_num(void){ IN(LE, a); IN(Z, n); LE r; LEK(plES1_)(&r, &a, &n); REACH; }
+void h_le_sub_num(void){ IN(LE, a); IN(Z, n); LE r; LEK(miES1_)(&r, &a, &n); REACH; }
+void h_le_add_long(void){ IN(LE, a); GHOST(uint64_t, n); LE r; LEK(plEl)(&r, &a, n); REACH; }
+void h_le_sub_long(void){ IN(LE, a); GHOST(uint64_t, n); LE r; LEK(miEl)(&r, &a, n); REACH; }
+#endif
+/* constant expressions: linear_expression(), (Number), (int64_t): no term, the given constant */
+//@check id=le_ctor0 fn=_ZN4ikos17linear_expressionINS_8z_numberE2VNEC2Ev props=C20 replace=_ZSt11make_sharedIN5boost9container8flat_mapIN4crab8variableIN4ikos8z_numberE2VNEES6_St4lessIS8_EvEEJEESt10shared_ptrINSt9enable_ifIXntsr8is_arrayIT_EE5valueESE_E4typeEEDpOT0_
+void LEN(C2Ev)(LE *self)
+__CPROVER_requires(FRESH(le_ctor0, self, sizeof(LE)))
+__CPROVER_assigns(*self)
+__CPROVER_ensures(LE_CONST(self) && LE_E(self) == 0 && LE_CST(self) == 0);
+//@check id=le_ctor_num fn=_ZN4ikos17linear_expressionINS_8z_numberE2VNEC2ES1_ props=C20 replace=_ZSt11make_sharedIN5boost9container8flat_mapIN4crab8variableIN4ikos8z_numberE2VNEES6_St4lessIS8_EvEEJEESt10shared_ptrINSt9enable_ifIXntsr8is_arrayIT_EE5valueESE_E4typeEEDpOT0_
+void LEN(C2ES1_)(LE *self, Z *n)
+__CPROVER_requires(FRESH(le_ctor_num, self, sizeof(LE)) && FRESH(le_ctor_num, n, sizeof(Z)) && zin(ZV(n), ZB))
+__CPROVER_assigns(*self)
+__CPROVER_ensures(LE_CONST(self) && LE_E(self) == 0 && LE_CST(self) == ZV(n));
+//@check id=le_ctor_long fn=_ZN4ikos17linear_expressionINS_8z_numberE2VNEC2El props=C20 replace=_ZSt11make_sharedIN5boost9container8flat_mapIN4crab8variableIN4ikos8z_numberE2VNEES6_St4lessIS8_EvEEJEESt10shared_ptrINSt9enable_ifIXntsr8is_arrayIT_EE5valueESE_E4typeEEDpOT0_
+void LEN(C2El)(LE *self, uint64_t n)
+__CPROVER_requires(FRESH(le_ctor_long, self, sizeof(LE)))
+__CPROVER_assigns(*self)
+__CPROVER_ensures(LE_CONST(self) && LE_E(self) == 0 && LE_CST(self) == (i128)(int64_t)n);
+#ifndef LINCST_CONCRETE
+void h_le_ctor0(void){ LE r; LEN(C2Ev)(&r); REACH; }
+void h_le_ctor_num(void){ IN(Z, n); LE r; LEN(C2ES1_)(&r, &n); REACH; }
+void h_le_ctor_long(void){ GHOST(uint64_t, n); LE r; LEN(C2El)(&r, n); REACH; }
+#endif
+
+/* ---- 2b. members that work on the terms: CONCRETE reading.
+ * Trusted: the reference sorted-array model of the four Boost entry points and the shared_ptr plumbing
+ * (units/lincst/lemodel.c).  PROVED: the real linear_expression code on top of them. */
+#ifdef LINCST_CONCRETE
+/* harness input: an expression together with its own map object and term storage (capacity CAPT) */
+#define CAPT 4
+struct lein { LE e; FM m; PR t[CAPT]; };
+#define VALREC(A) RECORD(i128, A##_v0, FM_VAL(&A.m, 0)); RECORD(i128, A##_v1, FM_VAL(&A.m, 1))
+/* v-table pointers are ASSIGNED (the checker resolves a virtual call only through a pointer it has seen assigned) */
+#define FIXVAR(v) ((v)->f0.f0 = VT_VAR, (v)->f1.f0.f0 = VT_VN)
+#define INLE(A) IN(struct lein, A); A.e.f0.f0.f0 = &A.m; FM_START(&A.m) = A.t; FM_CAP(&A.m) = CAPT; \
+  FIXVAR(&A.t[0].f0); FIXVAR(&A.t[1].f0); FIXVAR(&A.t[2].f0); FIXVAR(&A.t[3].f0); VALREC(A)
+#define INVAR(x) IN(VAR, x); FIXVAR(&x)
+#define HG GHOSTG(uint64_t, g_v)
+
+/* thorough tier: one run per pair of operand sizes (vary=SZ: SZ = (NT + 1) * size(e1) + size(e2)); the harness ASSIGNS the
+ * sizes so that the checker sees them as constants; the union of the runs is "at most NT terms per operand" */
+#ifdef SZ
+#define SZFIX(A, B) FM_SIZE(&A.m) = (SZ) / (NT + 1); wit_##A.m.f0.f0.f0.f0.f1 = (SZ) / (NT + 1); FM_SIZE(&B.m) = (SZ) % (NT + 1); wit_##B.m.f0.f0.f0.f0.f1 = (SZ) % (NT + 1)
+#define SZFULL(A, B) 1
+#else
+#define SZFIX(A, B)
+#define SZFULL(A, B) (FM_SIZE(&A.m) == NT && FM_SIZE(&B.m) == NT)
+#endif
+#ifdef SZ1
+#define SZFIX1(A) FM_SIZE(&A.m) = (SZ1); wit_##A.m.f0.f0.f0.f0.f1 = (SZ1)
+#define SZFULL1(A) 1
+#else
+#define SZFIX1(A)
+#define SZFULL1(A) (FM_SIZE(&A.m) == NT)
+#endif
+/* is_constant(), size(): any number of terms (they read the size field only) */
+//@check id=le_is_constant fn=_ZNK4ikos17linear_expressionINS_8z_numberE2VNE11is_constantEv props=C20 defs=LINCST_CONCRETE
+void h_le_is_constant(void){ IN(LE, e); IN(FM, m); e.f0.f0.f0 = &m; LEK(11is_constantEv)(&e); REACH; }
+//@check id=le_size fn=_ZNK4ikos17linear_expressionINS_8z_numberE2VNE4sizeEv props=C20 defs=LINCST_CONCRETE
+uint64_t LEK(4sizeEv)(LE *self)
+__CPROVER_requires(FRESH(le_size, self, sizeof(LE)) && le_ok_any(self))
+__CPROVER_assigns()
+__CPROVER_ensures(__CPROVER_return_value == FM_SIZE(EMAP(self)));
+void h_le_size(void){ IN(LE, e); IN(FM, m); e.f0.f0.f0 = &m; LEK(4sizeEv)(&e); REACH; }
+
+/* operator[](x): the coefficient of x (0 when x does not occur) */
+//@check id=le_index fn=_ZNK4ikos17linear_expressionINS_8z_numberE2VNEixERKN4crab8variableIS1_S2_EE props=C20 defs=LINCST_CONCRETE,NT=2 unwind=5 bounded="<=2 terms" timeout=600 first_timeout=400
+void LEK(ixERKN4crab8variableIS1_S2_EE)(Z *ret, LE *self, VAR *x)
+__CPROVER_requires(FRESH(le_index, ret, sizeof(Z)) && FRESH(le_index, self, sizeof(LE)) && FRESH(le_index, x, sizeof(VAR)) && le_ok(self) && var_ok(x))
+__CPROVER_assigns(*ret)
+__CPROVER_ensures(ZV(ret) == GET(self, VAR_IDX(x)));
+void h_le_index(void){ INLE(A); INVAR(x); Z r; LEK(ixERKN4crab8variableIS1_S2_EE)(&r, &A.e, &x); REACH; }
+
+/* unary minus (the contract the constraint layer uses) */
+//@check id=le_neg fn=_ZNK4ikos17linear_expressionINS_8z_numberE2VNEngEv props=C20 defs=LINCST_CONCRETE,NT=2,NO_EVAL unwind=5 bounded="<=2 terms" timeout=900 first_timeout=600
+//@check id=le_neg_eval fn=_ZNK4ikos17linear_expressionINS_8z_numberE2VNEngEv tag=le_neg harness=h_le_neg props=C20 defs=LINCST_CONCRETE,NT=1,ONLY_EVAL defs_thorough=LINCST_CONCRETE,NT=2,ONLY_EVAL unwind=3 unwind_thorough=5 vary_thorough=SZ1:0-2 bounded="<=1 term" bounded_thorough="<=2 terms" timeout=900 first_timeout=600 timeout_thorough=3600 first_timeout_thorough=3000
+void h_le_neg(void){ INLE(A); SZFIX1(A); HG; LE r; LEK(ngEv)(&r, &A.e); SATGUARD(NEG_LEMMAS(&A.e) && SZFULL1(A)); REACH; }
+
+/* (thorough tier, evaluation clauses, 2-term operands: the size pairs (1,2), (2,1) take about 10 minutes each and (2,2)
+ * about an hour in the SAT back end; kissat first, minisat does not finish them) */
+/* e1 + e2, e1 - e2: coefficient-wise sum / difference (at the ghost variable g_v, i.e. at every variable), constants
+ * added / subtracted, a well-formed result (sorted, no zero coefficient), and the HOMOMORPHISM under the valuation:
+ * value(e1 +- e2) = value(e1) +- value(e2), stated under the distributivity instances it needs */
+#define LEBIN(id, fn, SIGN, LEMMAS) \
+void fn(LE *ret, LE *self, LE *e) \
+__CPROVER_requires(FRESH(id, ret, sizeof(LE)) && FRESH(id, self, sizeof(LE)) && FRESH(id, e, sizeof(LE)) && le_ok(self) && le_ok(e)) \
+__CPROVER_assigns(*ret) \
+__CPROVER_ensures(SP(le_oknz(ret, 2 * NT, 2 * ZB) && LE_CST(ret) == LE_CST(self) SIGN LE_CST(e))) \
+__CPROVER_ensures(SP(GET(ret, g_v) == GET(self, g_v) SIGN GET(e, g_v))) \
+__CPROVER_ensures(EP(!LEMMAS(EMAP(self), EMAP(e)) || LE_E(ret) == LE_E(self) SIGN LE_E(e))); \
+void h_##id(void){ INLE(A); INLE(B); SZFIX(A, B); HG; LE r; fn(&r, &A.e, &B.e); \
+  SATGUARD(LEMMAS(&A.m, &B.m) && SZFULL(A, B) && FM_IDX(&A.m, 0) == FM_IDX(&B.m, 0)); \
+  SATGUARD(LEMMAS(&A.m, &B.m) && SZFULL(A, B) && FM_SIZE(MAPP(r)) == FM_SIZE(&A.m) + FM_SIZE(&B.m)); REACH; }
+//@check id=le_add fn=_ZNK4ikos17linear_expressionINS_8z_numberE2VNEplERKS3_ props=C20 defs=LINCST_CONCRETE,NT=2,NO_EVAL unwind=5 bounded="<=2 terms per operand" timeout=900 first_timeout=600
+//@check id=le_add_eval fn=_ZNK4ikos17linear_expressionINS_8z_numberE2VNEplERKS3_ tag=le_add harness=h_le_add props=C20 defs=LINCST_CONCRETE,NT=1,ONLY_EVAL defs_thorough=LINCST_CONCRETE,NT=2,ONLY_EVAL unwind=3 unwind_thorough=5 vary_thorough=SZ:0-8 backends_thorough=kissat,minisat bounded="<=1 term per operand" bounded_thorough="<=2 terms per operand" timeout=900 first_timeout=600 timeout_thorough=9000 first_timeout_thorough=7200 cost=9
+LEBIN(le_add, LEK(plERKS3_), +, fm_add_lemmas)
+//@check id=le_sub fn=_ZNK4ikos17linear_expressionINS_8z_numberE2VNEmiERKS3_ props=C20 defs=LINCST_CONCRETE,NT=2,NO_EVAL unwind=5 bounded="<=2 terms per operand" timeout=900 first_timeout=600
+//@check id=le_sub_eval fn=_ZNK4ikos17linear_expressionINS_8z_numberE2VNEmiERKS3_ tag=le_sub harness=h_le_sub props=C20 defs=LINCST_CONCRETE,NT=1,ONLY_EVAL defs_thorough=LINCST_CONCRETE,NT=2,ONLY_EVAL unwind=3 unwind_thorough=5 vary_thorough=SZ:0-8 backends_thorough=kissat,minisat bounded="<=1 term per operand" bounded_thorough="<=2 terms per operand" timeout=900 first_timeout=600 timeout_thorough=9000 first_timeout_thorough=7200 cost=9
+LEBIN(le_sub, LEK(miERKS3_), -, fm_sub_lemmas)
+/* the same expression on both sides: e + e, e - e (= the constant 0: every term cancels) */
+//@check id=le_sub_self fn=_ZNK4ikos17linear_expressionINS_8z_numberE2VNEmiERKS3_ tag=le_sub props=C20 defs=LINCST_CONCRETE,NT=2,NO_EVAL unwind=5 bounded="<=2 terms" timeout=900 first_timeout=600
+void h_le_sub_self(void){ INLE(A); SZFIX1(A); HG; LE r; LEK(miERKS3_)(&r, &A.e, &A.e); __CPROVER_assert(FM_SIZE(MAPP(r)) == 0 && LE_CST(&r) == 0, "e - e is the constant 0"); REACH; }
+
+/* n * e: coefficient-wise product, constant multiplied, well-formed result, value(n * e) = n * value(e) */
+#define SCALE_POST(N) \
+__CPROVER_ensures(SP(le_oknz(ret, NT, ZLIM) && LE_CST(ret) == lmul(N, LE_CST(self)))) \
+__CPROVER_ensures(SP(GET(ret, g_v) == lmul(N, GET(self, g_v)))) \
+__CPROVER_ensures(EP(!fm_scale_lemmas(EMAP(self), N) || LE_E(ret) == lmul(N, LE_E(self))))
+//@check id=le_scale fn=_ZNK4ikos17linear_expressionINS_8z_numberE2VNEmlES1_ props=C20 defs=LINCST_CONCRETE,NT=2,NO_EVAL unwind=5 bounded="<=2 terms" timeout=900 first_timeout=600
+//@check id=le_scale_eval fn=_ZNK4ikos17linear_expressionINS_8z_numberE2VNEmlES1_ tag=le_scale harness=h_le_scale props=C20 defs=LINCST_CONCRETE,NT=1,ONLY_EVAL defs_thorough=LINCST_CONCRETE,NT=2,ONLY_EVAL unwind=3 unwind_thorough=5 vary_thorough=SZ1:0-2 bounded="<=1 term" bounded_thorough="<=2 terms" timeout=900 first_timeout=600 timeout_thorough=3600 first_timeout_thorough=3000
+void LEK(mlES1_)(LE *ret, LE *self, Z *n)
+__CPROVER_requires(FRESH(le_scale, ret, sizeof(LE)) && FRESH(le_scale, self, sizeof(LE)) && FRESH(le_scale, n, sizeof(Z)) && le_ok(self) && zin(ZV(n), ZB))
+__CPROVER_assigns(*ret)
+SCALE_POST(ZV(n));
+void h_le_scale(void){ INLE(A); SZFIX1(A); IN(Z, n); HG; LE r; LEK(mlES1_)(&r, &A.e, &n);
+  SATGUARD(fm_scale_lemmas(&A.m, ZV(&n)) && SZFULL1(A) && ZV(&n) > 1); SATGUARD(ZV(&n) == 0); REACH; }
+//@check id=le_scale_long fn=_ZNK4ikos17linear_expressionINS_8z_numberE2VNEmlEl props=C20 defs=LINCST_CONCRETE,NT=2,NO_EVAL unwind=5 bounded="<=2 terms" timeout=900 first_timeout=600
+//@check id=le_scale_long_eval fn=_ZNK4ikos17linear_expressionINS_8z_numberE2VNEmlEl tag=le_scale_long harness=h_le_scale_long props=C20 defs=LINCST_CONCRETE,NT=1,ONLY_EVAL defs_thorough=LINCST_CONCRETE,NT=2,ONLY_EVAL unwind=3 unwind_thorough=5 vary_thorough=SZ1:0-2 bounded="<=1 term" bounded_thorough="<=2 terms" timeout=900 first_timeout=600 timeout_thorough=3600 first_timeout_thorough=3000
+void LEK(mlEl)(LE *ret, LE *self, uint64_t n)
+__CPROVER_requires(FRESH(le_scale_long, ret, sizeof(LE)) && FRESH(le_scale_long, self, sizeof(LE)) && le_ok(self) && zin((i128)(int64_t)n, ZB))
+__CPROVER_assigns(*ret)
+SCALE_POST((i128)(int64_t)n);
+void h_le_scale_long(void){ INLE(A); SZFIX1(A); GHOST(uint64_t, n); HG; LE r; LEK(mlEl)(&r, &A.e, n);
+  SATGUARD(fm_scale_lemmas(&A.m, (i128)(int64_t)n) && SZFULL1(A) && (int64_t)n < -1); REACH; }
+
+/* e + x, e - x for a variable x */
+#define LEVAR(id, fn, K) \
+void fn(LE *ret, LE *self, VAR *x) \
+__CPROVER_requires(FRESH(id, ret, sizeof(LE)) && FRESH(id, self, sizeof(LE)) && FRESH(id, x, sizeof(VAR)) && le_ok(self) && var_ok(x)) \
+__CPROVER_assigns(*ret) \
+__CPROVER_ensures(SP(le_oknz(ret, NT + 1, 2 * ZB) && LE_CST(ret) == LE_CST(self))) \
+__CPROVER_ensures(SP(GET(ret, g_v) == GET(self, g_v) + (g_v == VAR_IDX(x) ? (K) : 0))) \
+__CPROVER_ensures(EP(!fm_addvar_lemmas(EMAP(self), VAR_IDX(x), K) || LE_E(ret) == LE_E(self) + (K) * VAL(VAR_IDX(x)))); \
+void h_##id(void){ INLE(A); SZFIX1(A); INVAR(x); RECORD(i128, x_v, VAL(VAR_IDX(&x))); HG; LE r; fn(&r, &A.e, &x); \
+  SATGUARD(fm_addvar_lemmas(&A.m, VAR_IDX(&x), K) && SZFULL1(A) && FM_IDX(&A.m, NT - 1) == VAR_IDX(&x)); SATGUARD(SZFULL1(A) && FM_SIZE(MAPP(r)) == FM_SIZE(&A.m) + 1); REACH; }
+//@check id=le_add_var fn=_ZNK4ikos17linear_expressionINS_8z_numberE2VNEplEN4crab8variableIS1_S2_EE props=C20 defs=LINCST_CONCRETE,NT=2,NO_EVAL unwind=5 bounded="<=2 terms" timeout=900 first_timeout=600
+//@check id=le_add_var_eval fn=_ZNK4ikos17linear_expressionINS_8z_numberE2VNEplEN4crab8variableIS1_S2_EE tag=le_add_var harness=h_le_add_var props=C20 defs=LINCST_CONCRETE,NT=1,ONLY_EVAL defs_thorough=LINCST_CONCRETE,NT=2,ONLY_EVAL unwind=3 unwind_thorough=5 vary_thorough=SZ1:0-2 bounded="<=1 term" bounded_thorough="<=2 terms" timeout=900 first_timeout=600 timeout_thorough=3600 first_timeout_thorough=3000
+LEVAR(le_add_var, LEK(plEN4crab8variableIS1_S2_EE), 1)
+//@check id=le_sub_var fn=_ZNK4ikos17linear_expressionINS_8z_numberE2VNEmiEN4crab8variableIS1_S2_EE props=C20 defs=LINCST_CONCRETE,NT=2,NO_EVAL unwind=5 bounded="<=2 terms" timeout=900 first_timeout=600
+//@check id=le_sub_var_eval fn=_ZNK4ikos17linear_expressionINS_8z_numberE2VNEmiEN4crab8variableIS1_S2_EE tag=le_sub_var harness=h_le_sub_var props=C20 defs=LINCST_CONCRETE,NT=1,ONLY_EVAL defs_thorough=LINCST_CONCRETE,NT=2,ONLY_EVAL unwind=3 unwind_thorough=5 vary_thorough=SZ1:0-2 backends_thorough=kissat,minisat bounded="<=1 term" bounded_thorough="<=2 terms" timeout=900 first_timeout=600 timeout_thorough=3600 first_timeout_thorough=3000
+LEVAR(le_sub_var, LEK(miEN4crab8variableIS1_S2_EE), -1)
+
+/* the expressions  x  and  n * x */
+//@check id=le_ctor_var fn=_ZN4ikos17linear_expressionINS_8z_numberE2VNEC2EN4crab8variableIS1_S2_EE props=C20 defs=LINCST_CONCRETE,NT=1 unwind=3
+void LEN(C2EN4crab8variableIS1_S2_EE)(LE *self, VAR *x)
+__CPROVER_requires(FRESH(le_ctor_var, self, sizeof(LE)) && FRESH(le_ctor_var, x, sizeof(VAR)) && var_ok(x))
+__CPROVER_assigns(*self)
+__CPROVER_ensures(le_oknz(self, 1, ZB) && LE_CST(self) == 0 && GET(self, g_v) == (g_v == VAR_IDX(x) ? 1 : 0) && LE_E(self) == VAL(VAR_IDX(x)));
+void h_le_ctor_var(void){ INVAR(x); HG; LE r; LEN(C2EN4crab8variableIS1_S2_EE)(&r, &x); REACH; }
+/* n * x: in particular NO term when n == 0 (representation invariant: no zero coefficient, so that is_constant() and
+ * with it is_tautology() / is_contradiction() see a constant expression as constant) */
+//@check id=le_ctor_num_var fn=_ZN4ikos17linear_expressionINS_8z_numberE2VNEC2ES1_N4crab8variableIS1_S2_EE props=C20 defs=LINCST_CONCRETE,NT=1 unwind=3
+void LEN(C2ES1_N4crab8variableIS1_S2_EE)(LE *self, Z *n, VAR *x)
+__CPROVER_requires(FRESH(le_ctor_num_var, self, sizeof(LE)) && FRESH(le_ctor_num_var, n, sizeof(Z)) && FRESH(le_ctor_num_var, x, sizeof(VAR)) && var_ok(x) && zin(ZV(n), ZB))
+__CPROVER_assigns(*self)
+__CPROVER_ensures(LE_CST(self) == 0 && GET(self, g_v) == (g_v == VAR_IDX(x) ? ZV(n) : 0) && LE_E(self) == lmul(ZV(n), VAL(VAR_IDX(x))))
+__CPROVER_ensures(le_oknz(self, 1, ZB));
+void h_le_ctor_num_var(void){ IN(Z, n); INVAR(x); HG; LE r; LEN(C2ES1_N4crab8variableIS1_S2_EE)(&r, &n, &x); REACH; }
+
+/* rename(rho) for an ARBITRARY renaming map rho (opaque type RM, units/lincst/force.cpp): the constant is kept, the
+ * coefficient of x in the result is the sum of the coefficients of the variables renamed to x, the result is well
+ * formed, and value(rename(e, rho)) under val = value(e) under val o rho */
+#if NT <= 2
+//@check id=le_rename fn=_ZNK4ikos17linear_expressionINS_8z_numberE2VNE6renameI2RMEES3_RKT_ props=C20 tier=thorough defs=LINCST_CONCRETE,NT=2,NO_EVAL vary=SZ1:0-2 unwind=5 bounded="<=2 terms" timeout=900 first_timeout=600
+//@check id=le_rename_eval fn=_ZNK4ikos17linear_expressionINS_8z_numberE2VNE6renameI2RMEES3_RKT_ tag=le_rename harness=h_le_rename props=C20 tier=thorough defs=LINCST_CONCRETE,NT=1,ONLY_EVAL defs_thorough=LINCST_CONCRETE,NT=2,ONLY_EVAL unwind=3 unwind_thorough=5 vary_thorough=SZ1:0-1 bounded="<=1 term" bounded_thorough="<=1 term" timeout=900 first_timeout=600 timeout_thorough=3600 first_timeout_thorough=3000
+#define RHOREC(A, i) RECORD(unsigned char, A##_rh##i, RHO_HAS(FM_IDX(&A.m, i)) ? 1 : 0); RECORD(uint64_t, A##_r##i, RHO(FM_IDX(&A.m, i))); RECORD(i128, A##_rv##i, VAL(FM_RIDX(&A.m, i)))
+void h_le_rename(void){ INLE(A); SZFIX1(A); RHOREC(A, 0); RHOREC(A, 1); IN(struct S_struct_RM, rm); HG; LE r; LEK(6renameI2RMEES3_RKT_)(&r, &A.e, &rm);
+  SATGUARD(fm_rename_lemmas(&A.m) && SZFULL1(A) && RHO_HAS(FM_IDX(&A.m, 0)) && FM_SIZE(MAPP(r)) == FM_SIZE(&A.m));
+#if NT >= 2 && (!defined(SZ1) || SZ1 == 2)
+  SATGUARD(fm_rename_lemmas(&A.m) && FM_SIZE(&A.m) == 2 && FM_SIZE(MAPP(r)) == 1); SATGUARD(FM_SIZE(&A.m) == 2 && FM_SIZE(MAPP(r)) == 0);
+#endif
+  REACH; }
+#endif
+
+/* equal(): syntactic equality (same constant, same terms); equal expressions have the same value */
+//@check id=le_equal fn=_ZNK4ikos17linear_expressionINS_8z_numberE2VNE5equalERKS3_ props=C20 defs=LINCST_CONCRETE,NT=2 unwind=5 bounded="<=2 terms per operand" timeout=600 first_timeout=400
+unsigned char LEK(5equalERKS3_)(LE *self, LE *o)
+__CPROVER_requires(FRESH(le_equal, self, sizeof(LE)) && FRESH(le_equal, o, sizeof(LE)) && le_ok(self) && le_ok(o))
+__CPROVER_assigns()
+__CPROVER_ensures((__CPROVER_return_value != 0) == (LE_CST(self) == LE_CST(o) && fm_same(EMAP(self), EMAP(o))))
+__CPROVER_ensures(__CPROVER_return_value == 0 || GET(self, g_v) == GET(o, g_v))
+__CPROVER_ensures(__CPROVER_return_value == 0 || !(fm_range_lemmas(EMAP(self)) && fm_range_lemmas(EMAP(o))) || LE_E(self) == LE_E(o));
+void h_le_equal(void){ INLE(A); INLE(B); HG; unsigned char r = LEK(5equalERKS3_)(&A.e, &B.e); SATGUARD(r && FM_SIZE(&A.m) == NT && fm_range_lemmas(&A.m) && fm_range_lemmas(&B.m)); SATGUARD(!r && FM_SIZE(&A.m) == NT && FM_SIZE(&B.m) == NT); REACH; }
 #endif
